@@ -129,12 +129,12 @@ def cases(draw, tier):
         return {'prog': draw(respec_programs()), 'junk': draw(st.integers(0, 10000))}
     if draw(st.integers(0, 9)) == 0:
         return {'prog': draw(abandoned_iterator_programs()), 'junk': draw(st.integers(0, 10000))}
-    if draw(st.integers(0, 4)) == 0:
-        # the programs of the lock / stream / resource / ticker / first() checks (without injected faults): activities
+    if draw(st.integers(0, 3)) == 0:
+        # the programs of the lock / stream / resource / pipe / ticker / first() checks (without injected faults): activities
         # that are interrupted or closed while they hold iterators, locks and shares - what such an activity leaves
         # behind must be cleaned up at a moment that the program determines, not the garbage collector
-        from checks import c09, c10, c11, c12, c14, c16
-        mod = draw(st.sampled_from([c09, c10, c10, c11, c12, c14, c16, c16]))
+        from checks import c09, c10, c11, c12, c13, c14, c16
+        mod = draw(st.sampled_from([c09, c10, c10, c11, c12, c13, c13, c14, c16, c16]))
         sub = draw(mod.cases('quick'))
         return {'prog': sub['prog'], 'junk': draw(st.integers(0, 10000))}
     k = draw(st.integers(0, 7))
